@@ -179,6 +179,28 @@ theorem rejects_contradiction_counterexample : ¬ RejectsContradiction := by
   | null => exact absurd rfl ‹_›
   | _ => rfl
 
+/-- The same finding seen through the dropped bound (`exact
+[exclusive-singleton-infinity-dropped]`): after `x ≤ −∞` the constraint
+`x > cty.NegativeInfinity` is accepted, because it is never recorded. -/
+theorem rejects_contradiction_counterexample_dropped : ¬ RejectsContradiction := by
+  intro h
+  refine h ⟨⟨.number, .unk .unref⟩, [], .num .u none (some ⟨.inf true, true⟩)⟩ (.numLower .negInf false) rfl rfl rfl
+    ⟨.num (.inf true), by decide, by decide⟩ ?_
+    ⟨⟨.number, .unk .unref⟩, [], .num .u none (some ⟨.inf true, true⟩)⟩ rfl
+  intro x _
+  cases x with
+  | num y =>
+    cases hb : belowUpper (some ⟨.inf true, true⟩) y
+    · simp [γB, γ, rangeOk, hb]
+    · have hy : y = .inf true := by
+        have h1 := belowUpper_incl.mp hb
+        have h2 := Le.negInf y
+        exact (NumCmp.cmp_negInf_eq y).mp (le_antisymm_iff.mpr ⟨h1, h2⟩)
+      subst hy
+      decide
+  | null => exact absurd rfl ‹_›
+  | _ => rfl
+
 /-- Repair 04d8485 in the form of a theorem: after `x > m` (and no upper bound yet)
 the constraint `x < m` is not accepted — it used to be (finding #8 of the design
 document: `5 < x < 5`). -/
@@ -304,6 +326,17 @@ theorem known_violation_rejected (v : Value) (cs : List RefineCall) (x : Conc) (
   simp only [List.any_eq_true, List.all_eq_true, Bool.not_eq_eq_eq_not, Bool.not_true] at hv this
   obtain ⟨c, hc, hf⟩ := hv
   rw [this c hc] at hf; cases hf
+
+/-- The converse ("a call that holds of the known value is accepted") is NOT part of
+the property and is false of the code: a range call on a known *null* number panics
+(`min.GreaterThan(null)`), although range constraints say nothing about null. -/
+theorem known_assertion_converse_counterexample :
+    ¬ (∀ (v : Value) (cs : List RefineCall) (x : Conc), v.unmark.isKnown = true → concOf v.unmark = some x →
+        cs.all (fun c => den c x) = true → (refine v cs).isPanic = false) := by
+  intro h
+  have := h ⟨.number, .null⟩ [.numLower (.known (.fin false 0 0 64)) true] .null rfl rfl rfl
+  revert this
+  decide
 
 /-! ## "a string prefix recorded through the safe constructor is a byte prefix of the
 normalized form of every string that extends the given prefix" -/
